@@ -230,6 +230,16 @@ package flows
 //@   ensures [stored] (value != nil && value.Text.native != "") ==> (f[field.Key()] != nil && fresh(f[field.Key()]) && f[field.Key()].Value == value)
 //@   ensures [others] forall k string {f[k]} :: k != field.Key() ==> f[k] == old(f[k])
 
+// ---- C07 / C20: saving a result always stores the new result object under the snakified name (the value, category,
+// input and node of the latest routing are what later reads see), and reports a change iff value or category differ
+//@ func Results.Save
+//@   requires r != nil && result != nil
+//@   assigns map[string]*Result
+//@   ensures [stored] r[utils.Snakify(result.Name)] == result
+//@   ensures [others] forall k string {r[k]} :: k != utils.Snakify(result.Name) ==> r[k] == old(r[k])
+//@   ensures [changed_iff] result1 <==> (old(r[utils.Snakify(result.Name)]) == nil || old(r[utils.Snakify(result.Name)]).Value != result.Value || old(r[utils.Snakify(result.Name)]).Category != result.Category)
+//@   ensures [previous] result1 ==> result0 == old(r[utils.Snakify(result.Name)])
+
 //@ func FieldValues.Parse
 //@   assigns nothing
 //@   frame_trusted
